@@ -463,7 +463,10 @@ class JSON(Term):
         return format_quotes(value, quote_char)
 
     def get_sql(self, ctx: SqlContext) -> str:
-        sql = format_quotes(self._recursive_get_sql(self.value), ctx.secondary_quote_char)
+        quote_char = ctx.secondary_quote_char or ""
+        sql = format_quotes(
+            self._recursive_get_sql(self.value).replace(quote_char, quote_char * 2), quote_char
+        )
         return format_alias_sql(sql, self.alias, ctx)
 
     def get_json_value(self, key_or_index: str | int) -> "BasicCriterion":
